@@ -415,7 +415,14 @@ func checkC09(c *FaultCase) (f *ev.Failure, applied bool) {
 		}
 	}
 	got := map[string]bool{}
-	scalarLeaves(map[string]interface{}(mainRes.Data), got)
+	fromServices := map[string]interface{}{}
+	for k, v := range mainRes.Data {
+		if s, ok := v.(string); ok && (s == "Query" || s == "Mutation") {
+			continue // a root __typename is answered by the gateway itself
+		}
+		fromServices[k] = v
+	}
+	scalarLeaves(fromServices, got)
 	for k := range got {
 		if !returned[k] {
 			return ev.Failf("taint", "data contains %s which no service returned (fault %s): %s", k, kind, trunc(jsonOf(mainRes.Data), 400)), true
